@@ -18,6 +18,7 @@ import (
 	"strings"
 	"sync"
 	"testing"
+	"time"
 
 	"pgregory.net/rapid"
 )
@@ -302,10 +303,13 @@ func Safely(f func() error) (err error) {
 }
 
 type Prop[C any] struct {
-	ID    string
-	Part  string // name of this part (test function) in the evidence
-	Gen   func(t *rapid.T) C
-	Check func(c C, col *Collector) Result
+	// Deadline, when non-zero, is the promptness bound of one case: a watchdog records the case that
+	// is still running after this long as a failure ("did not terminate") and ends the process.
+	Deadline time.Duration
+	ID       string
+	Part     string // name of this part (test function) in the evidence
+	Gen      func(t *rapid.T) C
+	Check    func(c C, col *Collector) Result
 }
 
 func writeFail(part string, v any, err error) {
@@ -377,8 +381,34 @@ func Run[C any](t *testing.T, p Prop[C]) {
 			writeFail(p.Part, last, lastErr)
 		}
 	}()
+	var (
+		wdMu      sync.Mutex
+		wdCase    any
+		wdStarted time.Time
+	)
+	if p.Deadline > 0 {
+		go func() {
+			for {
+				time.Sleep(p.Deadline / 4)
+				wdMu.Lock()
+				c, st := wdCase, wdStarted
+				wdMu.Unlock()
+				if c != nil && time.Since(st) > p.Deadline {
+					col.write(p.Part, true)
+					writeFail(p.Part, c, fmt.Errorf("case did not terminate within %v (promptness)", p.Deadline))
+					os.Exit(1)
+				}
+			}
+		}()
+	}
 	rapid.Check(t, func(rt *rapid.T) {
 		c := p.Gen(rt)
+		if p.Deadline > 0 {
+			wdMu.Lock()
+			wdCase, wdStarted = c, time.Now()
+			wdMu.Unlock()
+			defer func() { wdMu.Lock(); wdCase = nil; wdMu.Unlock() }()
+		}
 		var res Result
 		err := Safely(func() error { res = p.Check(c, col); return res.Err })
 		if err != nil {
